@@ -318,11 +318,11 @@ func TestGovcReplay(t *testing.T) {
 	var in interface{}
 	v := %s
 	in = v
-	r, err := JustGenerics(v).%s()
+	r, err := JustGenerics(v).(someDef[%s]).%s()
 	_ = r
 	%s
 }
-`, convOracleSrc, lit, method, check)
+`, convOracleSrc, lit, kind, method, check)
 		out, failed := runOverlayTest(repo, ".", src, "TestGovcReplay")
 		res["input"] = fmt.Sprintf("%s via JustGenerics(...).%s()", lit, method)
 		res["go_test"] = src
